@@ -403,6 +403,7 @@ def h(*a): raise TO()
 signal.signal(signal.SIGALRM, h)
 for line in sys.stdin:
     req = json.loads(line)
+    _r.seed(seed * 1000003 + req.get("useed", 0))      # uuid stream depends on the request only, not on batching
     signal.alarm(req.get("timeout", 60))
     try:
         out = {"ok": pv_to_puml_string(req["jobs"], req["name"])}
